@@ -13,10 +13,13 @@
                                     LCD must be a cycle through exactly one wrap-around edge
      events                         start | append w root n | exit w | check expired alive | sleep |
                                     kill ws | join | copy batches ordered | return result timed_out
-     obs                            result, seq (sequential search, optional), timed_out, killed, orphans, dups
+     obs                            result, seq (sequential search, optional), timed_out, killed, orphans, dups,
+                                    order (the LCD dictionary lists its entries in the order of the sequential search)
 
    Two verdicts per case:
      "A:<clause>"  an OBSERVABLE contradicts C16/C19 (decided from obs and the kernel table only)
+     "X:<clause>"  an observable contradicts the specification, but not C16/C19 (the sequential search
+                   itself differs from the cycles TLC computes: property C05); recorded, not a verdict here
      "B:<clause>"  the event log is not a behaviour of the state machine (conformance divergence:
                    the code no longer follows the modelled algorithm; not a violation by itself)
    The log is stepped with the actions of LCDSearchSM themselves; the deadline (Tick) is not
@@ -60,8 +63,11 @@ FailingA(c) ==
   LET full == FullResult(Entry(c))
       res  == ObsSet(c, c.obs.result)
       cut  == c.obs.killed # << >>
+      \* "the same set as the single-process search": the observed sequential result where there is one
+      ref  == IF "seq" \in DOMAIN c.obs THEN ObsSet(c, c.obs.seq) ELSE full
+      sawDeadline == \E i \in DOMAIN c.events : c.events[i].e = "check" /\ c.events[i].expired
   IN
-  (IF ~IsEdges(c) /\ ~(res \subseteq full) THEN {"A:reported-lcd-not-in-untimed-result"} ELSE {})
+  (IF ~IsEdges(c) /\ ~(res \subseteq ref) THEN {"A:reported-lcd-not-in-untimed-result"} ELSE {})
   \cup (IF IsEdges(c) /\ LET E == TripleSet(c.E)  X == TripleSet(c.X) IN
                           \E i \in DOMAIN c.obs.result : ~GenuineCycle(E, X, c.obs.result[i])
         THEN {"A:reported-lcd-not-a-cycle"} ELSE {})
@@ -70,9 +76,11 @@ FailingA(c) ==
   \cup (IF IsSrc(c) /\ \E i \in DOMAIN c.obs.result :
               LET x == c.obs.result[i] IN x.elat # [j \in 1..Len(x.key) |-> c.lat[x.key[j]]]
         THEN {"A:edge-latencies"} ELSE {})
-  \cup (IF "seq" \in DOMAIN c.obs /\ ObsSet(c, c.obs.seq) # full THEN {"A:sequential-result-differs-from-spec"} ELSE {})
-  \cup (IF ~IsEdges(c) /\ ~cut /\ ~c.obs.timed_out /\ res # full THEN {"A:complete-run-differs-from-sequential"} ELSE {})
-  \cup (IF ~IsEdges(c) /\ ~cut /\ c.obs.timed_out /\ res # full THEN {"A:uncut-run-differs-from-sequential"} ELSE {})
+  \cup (IF "seq" \in DOMAIN c.obs /\ ObsSet(c, c.obs.seq) # full THEN {"X:sequential-result-differs-from-spec"} ELSE {})
+  \cup (IF ~IsEdges(c) /\ ~cut /\ ~c.obs.timed_out /\ res # ref THEN {"A:complete-run-differs-from-sequential"} ELSE {})
+  \cup (IF ~IsEdges(c) /\ ~cut /\ c.obs.timed_out /\ res # ref THEN {"A:uncut-run-differs-from-sequential"} ELSE {})
+  \cup (IF ~IsEdges(c) /\ res = ref /\ ~c.obs.order THEN {"A:lcd-order-differs-from-sequential"} ELSE {})
+  \cup (IF cut /\ c.to /\ ~sawDeadline THEN {"A:cut-before-deadline"} ELSE {})
   \cup (IF cut /\ ~c.obs.timed_out THEN {"A:cut-without-warning"} ELSE {})
   \cup (IF ~cut /\ c.obs.timed_out /\ c.to THEN {"A:warning-without-cut"} ELSE {})
   \cup (IF ~c.to /\ c.obs.timed_out THEN {"A:warning-without-timeout"} ELSE {})
